@@ -1079,6 +1079,15 @@ pub fn wide_docs(n: usize) -> Vec<MObj> {
         mk(vec![n - 1, n - 2]),
         mk((0..64.min(n)).collect()),
         MObj::new().with("f", MVal::Int(1)),
+        // the same needle more than once in the value: occurrences are not members
+        mk(vec![0, 0]),
+        mk(vec![0, 1, 0]),
+        mk(vec![0, 0, 1]),
+        mk(vec![1, 0, 0, 2, 0]),
+        mk(std::iter::repeat(0).take(64).chain(0..n).collect()),
+        mk(std::iter::repeat(0).take(64).chain(1..n).collect()),
+        mk((0..n).chain(0..n).collect()),
+        mk((0..n.saturating_sub(1)).chain(0..n.saturating_sub(1)).collect()),
     ]
 }
 
